@@ -227,7 +227,7 @@ static Verdict run_c15(const Case &c)
     }
     rm_rf15(dir);
     return s.b;
-  }, 120);
+  }, 40);
   rm_rf15(base + "-A");
   int pipeline_runs = 0, fails_before_success = 0;
   bool seen_fail = false;
@@ -262,7 +262,7 @@ static Verdict run_c15(const Case &c)
         }
         rm_rf15(dir);
         return s.b;
-      }, 120);
+      }, 40);
       rm_rf15(base + "-P");
       if (r.status == CH_OK)
       {
@@ -340,7 +340,7 @@ static Verdict run_c15(const Case &c)
       s.u32((uint32_t)r.ret);
       s.blob(r.out);
       return s.b;
-    }, 60);
+    }, 30);
     rm_rf15(base + "-B");
     if (rb.status == CH_TIMEOUT)
       return v;
